@@ -327,6 +327,14 @@ impl ReplDriver {
                 }
                 self.plain_w(&mut p, &op);
             }
+            // the writer is sometimes restarted before it serves: what it signs and serves after
+            // replaying its unflushed entries must be what it served before
+            if self.rng.gen_bool(0.3) {
+                self.plain_w(&mut p, &Op::Reopen);
+                for _ in 0..1 {
+                    self.plain_w(&mut p, &Op::Sub);
+                }
+            }
             // the replica asks, in random order
             let nr = self.rng.gen_range(1..=g.requests);
             for _ in 0..nr {
@@ -888,6 +896,38 @@ impl ReplDriver {
             p.w.drain();
             alts.extend(mixes);
         }
+        // an extra seek section riding on the honest proof: nodes nobody asked for, garbage or genuine
+        // ones of other places; whatever the verifier does with them, it must not keep what it has
+        // not authenticated (judged by the node audit below)
+        if honest.seek.is_none() && (honest.block.is_some() || honest.hash.is_some()) {
+            let wl = p.w.len();
+            let top = (2 * wl).saturating_sub(1).max(1);
+            for variant in 0..4u64 {
+                let k = 1 + (variant % 2) as usize;
+                let mut nodes: Vec<Node> = vec![];
+                let mut j = self.rng.gen_range(0..top);
+                for _ in 0..k {
+                    let n = if variant < 2 {
+                        Node::new(j, vec![0xC0 | (variant as u8); 32], 1 + variant)
+                    } else {
+                        // a genuine node of the writer's tree at that index, if it has one
+                        match p.w.create_proof(None, Some(RequestBlock { index: j, nodes: 0 }), None, None) {
+                            Ok(Some(hp)) => match hp.hash.and_then(|h| h.nodes.first().cloned()) {
+                                Some(n) => n,
+                                None => Node::new(j, vec![0xC7; 32], 3),
+                            },
+                            _ => Node::new(j, vec![0xC7; 32], 3),
+                        }
+                    };
+                    nodes.push(n);
+                    j = flat_tree::sibling(j);
+                }
+                let mut m = honest.clone();
+                m.seek = Some(DataSeek { bytes: self.rng.gen_range(0..4), nodes });
+                alts.push((format!("seek-inserted-{}", if variant < 2 { "garbage" } else { "genuine" }), false, m));
+            }
+            p.w.drain();
+        }
         for (name, must, forged) in alts {
             let mut meta = req.meta("forged");
             meta["alt"] = json!(name);
@@ -900,6 +940,12 @@ impl ReplDriver {
             let accepted = ret["t"] == "ok" && ret["applied"] == true;
             if accepted {
                 self.rec().count("forged_accepted", 1);
+                // Merkle.tla's StoredTrue at the implementation: every tree node the replica can
+                // produce after accepting an altered proof is the writer's node at that index
+                let bad = self.node_audit(p);
+                if !bad.is_empty() {
+                    self.rec().emit(json!({"e":"foreign-node","c":"r","nodes":bad}));
+                }
                 if self.rng.gen_range(0..4) == 0 {
                     // honest replication must still complete from the state it left
                     let mut l2 = lin.clone();
@@ -920,6 +966,37 @@ impl ReplDriver {
             }
         }
         false
+    }
+
+    /// Indices of tree nodes that the replica serves (hash request for the node itself) with a hash
+    /// or size different from the writer's node at that index.
+    fn node_audit(&mut self, p: &mut Pair) -> Vec<u64> {
+        let mut bad = vec![];
+        let top = 2 * p.r.len().min(p.w.len());
+        if top > 512 {
+            return bad;
+        }
+        for j in 0..top.saturating_sub(1) {
+            if flat_tree::right_span(j) >= top {
+                continue;
+            }
+            let mine = match p.r.create_proof(None, Some(RequestBlock { index: j, nodes: 0 }), None, None) {
+                Ok(Some(hp)) => hp.hash.and_then(|h| h.nodes.first().cloned()),
+                _ => None,
+            };
+            let truth = match p.w.create_proof(None, Some(RequestBlock { index: j, nodes: 0 }), None, None) {
+                Ok(Some(hp)) => hp.hash.and_then(|h| h.nodes.first().cloned()),
+                _ => None,
+            };
+            if let (Some(a), Some(b)) = (mine, truth) {
+                if a.hash() != b.hash() || a.len() != b.len() {
+                    bad.push(j);
+                }
+            }
+        }
+        p.r.drain();
+        p.w.drain();
+        bad
     }
 
     // -----------------------------------------------------------------------
